@@ -130,7 +130,7 @@ func runC14(rc *RunCtx) {
 		rc.Cov.Sample(map[string]interface{}{"history_tail": e.history[max(0, len(e.history)-12):]})
 	}
 	// natural failures of the real keepers and late validation failures after the burn
-	for vi, variant := range []string{"ftf-paused", "module-blacklisted", "recipient-blacklisted", "allowance-exhausted", "send-side-paused", "max-body-131", "zero-messenger", "caller-31-bytes", "poor-depositor", "short-messenger", "long-messenger"} {
+	for vi, variant := range []string{"ftf-paused", "module-blacklisted", "recipient-blacklisted", "allowance-exhausted", "send-side-paused", "max-body-131", "zero-messenger", "caller-31-bytes", "poor-depositor", "short-messenger", "long-messenger", "zero-amount-burn-message", "mint-to-module-account"} {
 		if vi%rc.NShards != rc.Shard {
 			continue
 		}
@@ -184,6 +184,16 @@ func runC14(rc *RunCtx) {
 					dd.DestinationDomain = 0
 				}
 				m = d
+			case "zero-amount-burn-message": // the fiat-token-factory refuses to mint nothing: the receive fails as a whole
+				nonce++
+				raw := StdInbound(nonce, k%NAccounts, big.NewInt(0)).Bytes()
+				m = &ct.MsgReceiveMessage{From: Acct(UserIx), Message: raw, Attestation: e.Attest(raw, 0)}
+			case "mint-to-module-account":
+				nonce++
+				in := StdInbound(nonce, 0, big.NewInt(int64(k%3))) // amounts 0, 1, 2
+				copy(in.Body[36:68], modulePadded)
+				raw := in.Bytes()
+				m = &ct.MsgReceiveMessage{From: Acct(UserIx), Message: raw, Attestation: e.Attest(raw, 0)}
 			default:
 				if k%2 == 0 {
 					m = pg.ValidDeposit(false, 0)
